@@ -420,6 +420,10 @@ def evaluate(e, env):
                 c_, f_ = find_method(cds, cn_, e.func.attr)
                 if f_ is not None and any(isinstance(d_, ast.Name) and d_.id in ("classmethod", "staticmethod") for d_ in f_.decorator_list):
                     return call_method_of(None, cn_, f_, _args(e.args, env), _kwargs(e.keywords, env), env)
+                if f_ is not None and e.args and not isinstance(e.args[0], ast.Starred):
+                    # Base.method(self, ...): the plain function of the class applied to an instance
+                    a0_ = _args(e.args, env)
+                    if isinstance(a0_[0], Inst): return call_method_of(a0_[0], c_, f_, a0_[1:], _kwargs(e.keywords, env), env)
             if isinstance(e.func, ast.Attribute):
                 # super().method(...)
                 if isinstance(e.func.value, ast.Call) and isinstance(e.func.value.func, ast.Name) and e.func.value.func.id == "super" and env.get("__class__") in cds:
